@@ -128,7 +128,8 @@ func c14Check(cs c14Case) (bad bool, msg string) {
 			return true, fmt.Sprintf("%s opaque 16-bit %v: premultiplied %v/%v and non-premultiplied %v/%v constructors disagree", cs.Space, cs.In, c1, a1, c2, a2)
 		}
 	case "ToNRGBA", "ToRGBA", "ToRGBA64", "ToLinearRGBA64":
-		c := linear.RGB{R: 0.25, G: 0.5, B: 0.75}
+		// In[0] selects the colour: in gamut, out of gamut (components above 1 and below 0), black, huge
+		c := []linear.RGB{{R: 0.25, G: 0.5, B: 0.75}, {R: 1.6, G: 0.5, B: 0.25}, {R: 2, G: 2, B: 2}, {R: -0.5, G: 0.3, B: 1.2}, {}, {R: 1, G: 1, B: 1}, {R: 1e6, G: 0, B: -1e6}}[int(cs.In[0])%7]
 		a := cs.Alpha
 		var got, max int
 		switch cs.Entry {
@@ -277,6 +278,16 @@ func c14ImageCheck(cs c14ImgCase) (bad bool, msg string) {
 			m.Pix[i*8+6], m.Pix[i*8+7] = uint8(a>>8), uint8(a)
 		}
 		src = m
+	case "NYCbCrA-strides": // planes with strides of their own (luma w+3, chroma cw+2, alpha w+5)
+		m := image.NewNYCbCrA(image.Rect(0, 0, 64, 48), image.YCbCrSubsampleRatio420)
+		rng.Fill(m.Y)
+		rng.Fill(m.Cb)
+		rng.Fill(m.Cr)
+		for i := range m.A {
+			m.A[i] = uint8(i*37 + i>>6)
+		}
+		rect = m.Rect
+		src = restride(m)
 	case "NYCbCrA":
 		m := image.NewNYCbCrA(image.Rect(0, 0, 256, 256), image.YCbCrSubsampleRatio420)
 		rng.Fill(m.Y)
@@ -293,7 +304,7 @@ func c14ImageCheck(cs c14ImgCase) (bad bool, msg string) {
 	dstRect := rect
 	shifted := cs.Seed%3 == 0
 	if shifted {
-		if sub, ok := src.(subImager); ok && cs.Src != "NYCbCrA" {
+		if sub, ok := src.(subImager); ok && cs.Src != "NYCbCrA" && cs.Src != "NYCbCrA-strides" {
 			rect = image.Rect(rect.Min.X+3, rect.Min.Y+5, rect.Max.X-2, rect.Max.Y-1)
 			src = sub.SubImage(rect)
 		}
@@ -344,7 +355,7 @@ func c14Images(r *core.Run) {
 	rng := core.NewRNG(r.Seed, "C14", "images")
 	for _, s := range libSpaces {
 		for _, fn := range []string{"LineariseImage", "EncodeImage"} {
-			for _, src := range []string{"NRGBA64", "RGBA64", "NRGBA", "RGBA64-black", "NYCbCrA"} {
+			for _, src := range []string{"NRGBA64", "RGBA64", "NRGBA", "RGBA64-black", "NYCbCrA", "NYCbCrA-strides"} {
 				for _, dst := range []string{"RGBA64", "NRGBA64", "RGBA", "NRGBA"} {
 					cases = append(cases, c14ImgCase{Space: s.Name, Fn: fn, Src: src, Dst: dst, Par: 1 + rng.Intn(8), Seed: rng.U64()})
 				}
@@ -362,6 +373,41 @@ func c14Images(r *core.Run) {
 					bi++
 					cases = append(cases, c14ImgCase{Space: s.Name, Fn: fn, Src: src, Dst: dst, Par: 1 + rng.Intn(8), Seed: rng.U64(), Lo: b[0], Hi: b[1]})
 				}
+			}
+		}
+	}
+	// a Paletted source converted, its palette's alphas edited in place, converted again: the alpha
+	// written is the palette's alpha as it is at that moment
+	for k := 0; k < 40; k++ {
+		s := libSpaces[k%len(libSpaces)]
+		rect := image.Rect(1, 2, 9, 7)
+		img := newSource("Paletted", rect, false, rng).(*image.Paletted)
+		for step := 0; step < 3; step++ {
+			dst := image.NewNRGBA64(rect)
+			if k%2 == 0 {
+				s.LineariseImage(dst, img, 1+k%3)
+			} else {
+				s.EncodeImage(dst, img, 1+k%3)
+			}
+			r.AddEvals(1)
+			bad := false
+			for y := rect.Min.Y; y < rect.Max.Y && !bad; y++ {
+				for x := rect.Min.X; x < rect.Max.X; x++ {
+					_, _, _, a := img.At(x, y).RGBA()
+					if got := dst.NRGBA64At(x, y).A; uint32(got) != a {
+						r.Violate("image", s.Name+"/Paletted/after-palette-edit", fmt.Sprintf("%s image transform #%d of one Paletted image whose palette alphas had been edited in place: pixel (%d,%d) has alpha %#04x, the palette entry now has %#04x", s.Name, step+1, x, y, got, a), map[string]any{"space": s.Name, "k": k, "step": step, "seed": r.Seed})
+						bad = true
+						break
+					}
+				}
+			}
+			if bad {
+				break
+			}
+			for i := range img.Palette {
+				rr, gg, bb, a := img.Palette[i].RGBA()
+				na := uint16((a*3/4 + uint32(step)*4099 + uint32(i)) & 0xffff)
+				img.Palette[i] = color.NRGBA64{R: uint16(rr), G: uint16(gg), B: uint16(bb), A: na}
 			}
 		}
 	}
@@ -520,13 +566,20 @@ func runC14(r *core.Run) {
 	core.ParallelFor(len(libSpaces)*4, 16, func(j int) {
 		s := libSpaces[j/4]
 		e := []string{"ToNRGBA", "ToRGBA", "ToRGBA64", "ToLinearRGBA64"}[j%4]
-		for _, a := range pts {
-			cs := c14Case{Space: s.Name, Entry: e, Alpha: a}
-			if bad, msg := c14Check(cs); bad {
-				r.Violate("alphaenc", s.Name+"/"+e, msg, cs)
+		var n int64
+		for i, a := range pts {
+			for col := 0; col < 7; col++ {
+				if col >= 2 && (i+col)%8 != 0 {
+					continue
+				}
+				cs := c14Case{Space: s.Name, Entry: e, Alpha: a, In: [4]uint16{uint16(col), 0, 0, 0}}
+				n++
+				if bad, msg := c14Check(cs); bad {
+					r.Violate("alphaenc", fmt.Sprintf("%s/%s/colour%d", s.Name, e, col), msg, cs)
+				}
 			}
 		}
-		r.AddEvals(int64(len(pts)))
+		r.AddEvals(n)
 	})
 	c14Images(r)
 	if r.Thorough() {
